@@ -674,7 +674,7 @@ def run(ctx):
         raise MachineryError("vacuous: no history with a detached HEAD")
 
     # ---------------------------------------------------------------- 2. replay against the real binary
-    budget = int(os.environ.get("VERIF_C20_MAX", "0")) or (9000 if thorough else 1500)
+    budget = int(os.environ.get("VERIF_C20_MAX", "0")) or (12000 if thorough else 1300)
     order = list(range(len(cases)))
     if len(order) > budget:
         # always replayed: short histories and the long simulated ones.  Next in line: histories whose last
@@ -690,96 +690,6 @@ def run(ctx):
         if len(perm) > left:
             perm = perm[:int(left * 0.7)]
         order = sorted(core + perm + other[:max(0, left - len(perm))])
-    tmpl = Templates(ctx)
-    tmpl.get(case["version"], variant[0])
-    res = replay(case, 0, tmpl, tools, ctx.mkdir("replays"), variant)
-    ctx.cov["evaluations"] += res["stats"]["runs"]
-    ctx.cov["distinct_nontrivial"] = 1
-    ctx.cov["rule"] = "single recorded history (replay mode)"
-    if res["verdicts"]:
-        at = validate_convicted(ctx, res["events"], "replay")
-        v = res["verdicts"][0]
-        v["detail"]["trace_validation"] = f"TaggerTrace.tla rejects the op log at event {at}"
-        ctx.violation(v["sig"], v["detail"])
-    else:
-        a, rej = validate_chunk(ctx, res["events"], "replay", frozenset([0]) if res["unsynced"] else frozenset())
-        for c, k, at in rej:
-            ctx.violation({"kind": "trace-rejected-after-drift", "flag": at["flag"], "exit": at["exit"]},
-                          {"rejected_event": at, "oplog": res["events"], "case_export": case, "variant": list(variant)})
-    ctx.cov["traces_validated_against_impl"] += 1
-    ctx.sample({"history": [{k: v for k, v in x.items() if k in ("op", "name", "kind", "c", "flag", "version")} for x in case["ops"]],
-                "tool": res["log"], "observed_after": res["events"][-1]["obs"]})
-    return {"level": "model_checking", "exhaustive": False}
-
-
-def run(ctx):
-    # TLC unpacks its standard modules into java.io.tmpdir: keep that inside the scratch directory as well
-    jt = ctx.mkdir("javatmp")
-    os.environ["JAVA_TOOL_OPTIONS"] = (os.environ.get("JAVA_TOOL_OPTIONS", "") + f" -Djava.io.tmpdir={jt}").strip()
-    if getattr(ctx, "replay", None):
-        return run_replay(ctx, ctx.replay)
-    thorough = ctx.thorough()
-    tools = ctx.tools_bin()
-    # ---------------------------------------------------------------- 1. model checking + export
-    cfg = "Tagger_thorough.cfg" if thorough else "Tagger_quick.cfg"
-    r = ctx.tlc("TaggerMC", cfg, workers=1, timeout=3000, coverage=False)
-    if r.violated:
-        ctx.note(f"model-level: {r.violated} violated on Tagger.tla (a prediction; the replay decides)")
-    elif not r.ok:
-        raise MachineryError("TLC failed on Tagger:\n" + r.tail())
-    tables = r.prints("TABLE")
-    if len(tables) != 1:
-        raise MachineryError(f"expected one TABLE line, got {len(tables)}")
-    n_table = check_tables(ctx, tables[0])
-    cases = exported_cases(r)
-    if len(cases) < 500:
-        raise MachineryError(f"too few exported invocations ({len(cases)}): vacuous")
-    vacuity(cases)
-    if thorough:
-        w = ctx.tlc("TaggerMC", "Tagger_cover.cfg", workers=4, timeout=600, coverage=True, count=False)
-        if not w.ok:
-            raise MachineryError("coverage run failed:\n" + w.tail())
-        zero = [z for z in w.coverage_zero()]
-        if zero:
-            raise MachineryError("vacuous: spec actions never taken: " + "; ".join(zero[:5]))
-
-    n_bfs = len(cases)
-    # long random histories: every second step an invocation, VERSION bumps / commits / user tags in between
-    # (the breadth-first export represents every repository STATE by its shortest history, in which tags are
-    # made by `git tag` rather than by earlier invocations; these histories make the tool meet its own tags)
-    sim = ctx.tlc("TaggerMC", "Tagger_sim.cfg" if thorough else "Tagger_simq.cfg", workers=1,
-                  simulate="num=%d" % (1200 if thorough else 150), depth=60, timeout=900, deadlock=False, count=False)
-    if sim.violated:
-        ctx.note(f"model-level (simulation): {sim.violated} violated (a prediction; the replay decides)")
-    elif not sim.ok:
-        raise MachineryError("TLC simulation failed on Tagger:\n" + sim.tail())
-    seen = set()
-    for c in exported_cases(sim):
-        k = json.dumps(c, sort_keys=True)
-        if k not in seen:
-            seen.add(k)
-            cases.append(c)
-    n_sim = len(cases) - n_bfs
-    if n_sim < (800 if thorough else 100):
-        raise MachineryError(f"simulation exported only {n_sim} long histories:\n" + sim.tail())
-    if not any(sum(1 for o in c["ops"] if o["op"] == "run" and model_tags(o["impl"]["tags"]) != model_tags(o["pre"]["tags"])) >= 2
-               for c in cases[n_bfs:]):
-        raise MachineryError("vacuous: no simulated history in which the tool tags twice")
-    if not any(o["op"] == "checkout" for c in cases for o in c["ops"]):
-        raise MachineryError("vacuous: no history with a detached HEAD")
-
-    # ---------------------------------------------------------------- 2. replay against the real binary
-    budget = int(os.environ.get("VERIF_C20_MAX", "0")) or (9000 if thorough else 1500)
-    order = list(range(len(cases)))
-    if len(order) > budget:
-        # always replayed: short histories, the long simulated ones, and every history whose last invocation the
-        # contract permits to tag (that is where refs are written); the rest is sampled with the seed
-        def always(i):
-            return len(cases[i]["ops"]) <= 2 or i >= n_bfs or cases[i]["ops"][-1].get("permitted")
-        keep = [i for i in order if always(i)]
-        rest = [i for i in order if not always(i)]
-        ctx.rng.shuffle(rest)
-        order = sorted(keep + rest[:max(0, budget - len(keep))])
     tmpl = Templates(ctx)
     variants = {}
     for i in order:      # concretisation choices (not part of the abstract state): env-file place, packed refs
